@@ -5,6 +5,79 @@ import json, sys
 TECH = "symbolic execution of the real go/ssa of /repo (own executor 'symgo') + SMT (z3 5.1 / cvc5 1.0) deciding every branch and assertion within stated bounds; counterexample models replayed natively on the real build before reporting"
 
 CHECKS = {
+ "C01": dict(
+  text="bounded symbolic model checking of the login-callback route through Provider.HttpHandler(): the request (id in query and/or body, any method), the storage answer (request absent | present with every field a free string, Done free, binding POST / Redirect / other), every storage fault and every key-material shape are symbolic; on every path the solver decides: Success => the lookup succeeded, Done() was consulted and true, no fault; a non-Success message carries no subject, attribute, authn statement or signature; user info is fetched only after Done; an HTTP error carries no message",
+  note="one request (histories reduced to 'arbitrary storage answer per call', DESIGN §3.7); user record: e-mail / user name optional, <=1 custom attribute; reply bytes are encoding/xml's (contract); strings unbounded",
+  ref="DESIGN.md §5 C01"),
+ "C02": dict(
+  text="bounded symbolic model checking of the SSO, callback and logout routes: request-supplied URLs (AssertionConsumerServiceURL, Destination, RelayState, further parameters) are free strings independent of the registered ones; on every path the solver decides that a form action / redirect target / Destination / Recipient is a registered ACS (SSO), the stored consumer URL with the stored binding (callback) or the first registered SingleLogoutService location (logout), or the reply stays in the HTTP body; the pair handed to CreateAuthRequest is one registered ACS entry",
+  note="ACS entries <=2 (quick) / <=3 (thorough), SLO entries <=2 / <=3; registered URLs absolute and none followed by '?' a prefix of another; browser URL semantics of 'acs?x=1?SAMLResponse=' outside the claim",
+  ref="DESIGN.md §5 C02"),
+ "C03": dict(
+  text="bounded symbolic model checking of the callback route's Success paths: the decoded Success message is compared field for field with the stored request, the audience the storage resolved, the user record and the clock: InResponseTo (response and confirmation), Destination = Recipient, both Issuers, Audience, NameID, the attribute statement as a set of (Name, NameFormat, FriendlyName, value list), RelayState at the sink (escaped exactly once in a query), IssueInstant = NotBefore a clock reading of this request, NotOnOrAfter = IssueInstant + lifetime, two distinct fresh NCName ids",
+  note="custom attributes <=1 / <=2, values per attribute <=2 / <=3; quick: e-mail and user name optional, thorough: every standard attribute optional; no storage faults (profile); byte-level escaping is encoding/xml's (contract, see C18)",
+  ref="DESIGN.md §5 C03"),
+ "C04": dict(
+  text="bounded symbolic model checking at composition level of the callback, attribute-query and metadata routes with idealised signatures: (a) Redirect binding: the octets handed to the signer equal the octets a conformant verifier rebuilds from the Location actually sent (word equations over the escaping function, cvc5), SigAlg is the algorithm URI used, Signature is the base64 of the signer's bytes escaped once; (b) enveloped signatures: the value snapshot signed equals the snapshot that reaches the encoder and the ds:Signature on the wire equals member for member what the signer returned; (c) no Success message leaves unsigned, for stored bindings POST / Redirect and any (also empty) consumer URL",
+  note="NOT covered (stated, not encodable here): agreement of xmlsig's canonical form with exclusive C14N of the wire bytes for every character, RSA/SHA themselves; both are library code behind contracts",
+  ref="DESIGN.md §5 C04"),
+ "C05": dict(
+  text="bounded symbolic model checking of the SSO route with idealised signatures: parameters in query and/or body (so moving a message or its signature to the other binding is a valuation), AuthnRequestsSigned / WantAuthRequestsSigned over {absent,true,false,1,0,any string}, 0..1 (quick) / 0..2 (thorough) key descriptors with symbolic key type, arbitrary embedded Signature / KeyInfo shape, arbitrary Signature / SigAlg parameters; the simulated SP signs nothing, so every signature value is a forgery: the solver decides that no path reaches CreateAuthRequest when signing is required by either side, or when any non-empty signature value (query parameter or ds:SignatureValue, on either binding) is present; the signed-request harness (HarnessSSOSigned) adds one validly signed Redirect request and decides that acceptance implies the values acted on are exactly the signed ones",
+  note="signature wrapping inside the XML-DSig libraries (etree vs encoding/xml disagreeing on the document) is outside the claim: the validation contract is 'valid iff these bytes carry a valid enveloped signature under the registered roots'",
+  ref="DESIGN.md §5 C05"),
+ "C06": dict(
+  text="bounded symbolic model checking of the SSO route: at every path that reaches acceptance the solver decides, on the inputs, each necessary condition: SAMLRequest non-empty, SigAlg => Signature, known encoding, the message decodes under the encoding in effect, Issuer present and equal to the entity ID of the registered SP the storage returned, ID and Version non-empty, Destination empty or the advertised SSO location, NotBefore / NotOnOrAfter empty or parseable and bracketing some clock reading of the request",
+  note="well-formedness of XML / base64 / DEFLATE are library contracts; time layout is the default one; strings unbounded",
+  ref="DESIGN.md §5 C06"),
+ "C07": dict(
+  text="bounded symbolic model checking of the converse direction on the SSO, logout and attribute-query routes: a schema-valid (struct level) request of a registered SP - every optional element / attribute arbitrary, Issuer registered, Destination absent or advertised, timestamps inside the window at every clock reading, Redirect (deflate, query) or POST (form) or SOAP binding, unsigned where nobody requires signing or (AuthnRequest, Redirect binding) signed by the registered RSA key with rsa-sha1 / rsa-sha256 over Go-style percent-encoded octets - is assumed, and the solver decides that it is accepted (persist + 303, resp. Success)",
+  note="byte-level serialisation variety (prefixes, whitespace, attribute order), other percent-encoding styles of signed queries, and enveloped (POST / SOAP) signed requests are outside this check (decode model is struct level; see DESIGN §5 C07)",
+  ref="DESIGN.md §5 C07"),
+ "C08": dict(
+  text="bounded symbolic model checking of the SSO route over six input profiles (placement/decoding, signatures, ACS shapes incl. Artifact / PAOS / unknown bindings, content, storage faults, ACS x faults): on every path at most one CreateAuthRequest; acceptance = exactly one successful persist followed by one 303 to sp.LoginURL(returned id) and no message; rejection = no successful persist and exactly one non-empty reply (one non-Success Response as form / redirect / body, or one http.Error); never an empty reply, two messages, or a reply after a persist",
+  note="ACS entries <=2 / <=3; the product of all profiles at once is outside the claim (each profile pins the other dimensions to nominal values, listed in the evidence)",
+  ref="DESIGN.md §5 C08"),
+ "C09": dict(
+  text="bounded symbolic model checking of all routes and of serviceprovider.NewServiceProvider with lazily initialised inputs: every pointer-typed optional element of the decoded AuthnRequest / LogoutRequest / AttributeQuery / SOAP envelope / SP metadata is independently nil or present, lists have 0..1 (quick) / 0..2 (thorough) elements, the SP key type and SigAlg are symbolic; every nil dereference, failed type assertion, index out of range, nil map write or explicit panic in module code is a terminal state, and the solver decides that none is reachable",
+  note="Level S decode model: every type-consistent struct is a possible decoding result; panics inside libraries on malformed bytes are outside the claim; storage contract: a nil error comes with a non-nil record",
+  ref="DESIGN.md §5 C09"),
+ "C10": dict(
+  text="bounded symbolic model checking of all routes with a storage whose every call occurrence may fail (symbolic decision per call; the two signing-key getters additionally return nil record / key without certificate / certificate without key / empty certificate; the configured signature algorithm is a free string): all fault combinations are covered at once; the solver decides that a faulted request ends in a 5xx http.Error or a non-Success message, with no Success, no user data, no signed metadata, no persist after the fault and no panic",
+  note="user record and message content pinned to nominal shapes (profile); ResponseWriter failures out of scope",
+  ref="DESIGN.md §5 C10"),
+ "C11": dict(
+  text="bounded symbolic model checking of NewProvider, the router and the metadata / certificate routes: for symbolic endpoint configurations the solver decides entityID = Issuer of every reply, advertised SSO / SLO / attribute locations = issuer + the path under which the corresponding handler (by function identity) is routed, the signing KeyDescriptor = the certificate createSignature uses and the certificate endpoint serves; WantAuthnRequestsSigned advertised as xs:boolean true iff an unsigned request is refused (HarnessC11Flags, through the SSO route)",
+  note="gorilla/mux modelled as a path-equality route table (no {} templates); static https issuer; well-formedness of the served bytes is encoding/xml's",
+  ref="DESIGN.md §5 C11"),
+ "C12": dict(
+  text="bounded symbolic model checking of the attribute-query route: lazily initialised SOAP envelope, requested attributes with free Name / NameFormat, symbolic user record; on every path that discloses a subject or attribute the solver decides: Issuer present and resolved by the storage, no unverified signature value, Destination absent or the advertised AttributeService location, InResponseTo = query ID, audience = requester, subject = the user storage resolved for the queried NameID, returned (Name, NameFormat) set = exactly the requested ones among the user's (all when none requested), assertion signed",
+  note="requested attributes <=1 / <=2, custom attributes <=1 / <=2; the simulated requester signs nothing (every signature value is a forgery)",
+  ref="DESIGN.md §5 C12"),
+ "C13": dict(
+  text="bounded symbolic model checking of the logout route: parameters in query and/or body, either encoding or undecodable input, lazily initialised LogoutRequest, symbolic timestamps and clock, SP absent or with 0..2 (3) SingleLogoutService entries: the solver decides Success => decodes, issuer registered, timestamps parse, inside the window for some clock reading; InResponseTo echoes the ID whenever the request decodes; Issuer is the IdP entity ID; the form goes to the first registered SLO location with the unchanged RelayState, else the body",
+  note="time layout default; RelayState compared as a term (byte escaping is html/template's)",
+  ref="DESIGN.md §5 C13"),
+ "C14": dict(
+  text="symbolic model checking of xml.InflateAndDecode and its callers with the stream contracts: the inflated length L of a DEFLATE payload is an unconstrained symbolic integer; the solver decides, for every L, that no operation materialises more than 32 MiB of stream content and that a payload above the module's limit is rejected, never truncated and accepted",
+  note="decided for limiters the contracts know (io.LimitReader, LimitedReader, MaxBytesReader, CopyN); a hand-written counting loop is reported inconclusive; allocator figures and flate's window memory outside the claim",
+  ref="DESIGN.md §5 C14"),
+ "C15": dict(
+  text="reduction (DESIGN §3.7) decided by symbolic execution of every route: every heap object carries its epoch; on every path of every handler the engine checks that no store, map update or append targets a provider-lifetime object or a package variable (so replies are functions of the request and the storage answers obtained during it, and concurrent requests cannot interfere through module code); every emitted ID is a fresh, pairwise distinct uuid-derived NCName (C03 / C11 harness assertions)",
+  note="schedules are NOT encoded; goroutine-safety of html/template, uuid, crypto/rand and the storage is trusted; the race detector and library-internal races are outside the claim",
+  ref="DESIGN.md §5 C15"),
+ "C17": dict(
+  text="usage-level symbolic model checking of every path of the SSO, callback and logout routes that ends in a form: the executed template is an html/template object parsed from the module's constant text, that text has exactly three actions each inside a double-quoted attribute value of the expected element, the data has exactly three plain-string fields equal to the consumer / logout URL term, the RelayState term and base64(xml(message)), no bypass type (template.HTML/URL/JS...) reaches the sink, at most one form per reply",
+  note="html/template's contextual escaping itself (every byte inert, javascript:/data: replaced) is the library's documented contract and is not encoded",
+  ref="DESIGN.md §5 C17"),
+ "C18": dict(
+  text="symbolic model checking of the codec functions under the stream contracts: InflateAndDecode returns an error for every encoding identifier outside {\"\", DEFLATE} (all strings); InflateAndDecode(DEFLATE, true, DeflateAndBase64(x)) returns x or an error, and x whenever len(x) <= 1 MiB; every reply of every route is exactly one document produced by encoding/xml's encoder",
+  note="character-level escaping ('illegal characters are replaced, never restructure') is encoding/xml's EscapeText, flate's codec is the library's: contracts, not encoded",
+  ref="DESIGN.md §5 C18"),
+ "C19": dict(
+  text="symbolic model checking of StaticIssuer / ValidateIssuer / NewProvider over the components url.Parse may return (lazy *url.URL) and of the host-derived issuer over symbolic Host / forwarded-header parser results / path / insecure flag: acceptance => non-empty, parses, host non-empty, https (http only with the insecure flag), no fragment, no query; dynamic issuer = scheme + '://' + first forwarded host else Host + path with a leading slash, containing no other request-derived symbol",
+  note="the string -> components mapping (url.Parse) and the Forwarded grammar (httpforwarded) are library code behind contracts",
+  ref="DESIGN.md §5 C19"),
+
  "C20": dict(
   text="bounded symbolic model checking of pkg/provider/checker: every chain of <=3 (quick) / <=4 (thorough) steps over all 8 constructors with symbolic parameters is executed on the real SSA; order, short-circuit, exactly-once callback, iff-result, per-kind failure condition and idempotence are compared with a reference transcribed from the statement; the solver decides every branch and assertion",
   note="bounds: chain length <=3/<=4, value lists <=2, length bounds in [-1,3]; logging has no effect; longer chains outside the claim",
